@@ -186,7 +186,7 @@ func node(g *cur, depth, id int) (res int) {
 	nd := g.next() % 4
 	counter := id * 100
 	for j := 0; j < nd; j++ {
-		kind := g.next() % 20
+		kind := g.next() % 23
 		switch kind {
 		case 19:
 			// operands that are themselves calls, the defer statement executed
@@ -195,6 +195,21 @@ func node(g *cur, depth, id int) (res int) {
 				defer named(g, id, j, sq(i+id))
 				defer host.EmitS(g.tag, "d-nest "+strconv.Itoa(id)+" "+strconv.Itoa(sq(i)))
 			}
+		case 20:
+			// the builtin deferred directly: recover is then not called BY a deferred
+			// function and stops nothing
+			defer recover()
+		case 22:
+			// the builtin deferred by a deferred function literal (what that does is
+			// whatever the compiled twin does)
+			defer func(jj int) {
+				defer recover()
+				g.emit("d-nested-defer-recover " + strconv.Itoa(id) + " " + strconv.Itoa(jj))
+			}(j)
+		case 21:
+			// a deferred builtin that raises: it runs when the function ends, not at
+			// the defer statement, and replaces a panic in flight
+			defer panic("dpanic" + strconv.Itoa(id))
 		case 17:
 			// recover reached through a closure variable called BY a deferred
 			// literal: one call too deep, it must not stop the panic (a deferred
